@@ -85,6 +85,9 @@ from guppylang.std.builtins import int as gint, float as gfloat
 from guppylang.std.option import Option, nothing, some
 from guppylang.std.either import Either, left, right
 from guppylang.std.lang import Copy, Drop
+from guppylang_internals.decorator import hugr_op
+from hugr import ext as _he, ops as _hops, tys as _ht
+from hugr.std.int import int_t as _int_t
 from collections.abc import Callable
 """
 
